@@ -7,6 +7,7 @@ import RisorModel.C01.FragOracle
 import RisorModel.C01.FunOracle
 import RisorModel.C01.CloOracle
 import RisorModel.C01.SeqOracle
+import RisorModel.C01.StrOracle
 import RisorModel.C01.EdgeOracle
 /-! Line-protocol front end of the C01 model.
   `eval <sexp>` → `ok <value> <stdout-hex>` | `err <class> <stdout-hex>` | `oof` | `unsupported <what>` -/
@@ -92,6 +93,7 @@ def handle : List String → String
   | "fun" :: rest => handleFun rest
   | "clo" :: rest => handleClo rest
   | "seq" :: rest => handleSeq rest
+  | "str" :: rest => handleStr rest
   | "edge" :: rest => Edge.handleEdge rest
   | _ => "error\tunknown-request"
 
